@@ -67,7 +67,7 @@ class Prop(BaseProp):
 
     def cases(self, rng, tier, config, k, K, n):
         for _ in range(n):
-            yield gen.history(rng, rng.choice(["pwc", "pwl"]), tier)
+            yield gen.history(rng, rng.choice(["pwc", "pwl"]), tier, wild=True)
 
     def check(self, case, ctx):
         ps = ctx.ps
@@ -161,7 +161,9 @@ class Prop(BaseProp):
         ba = ctx.call(build, ps, kind, fs[1], _name="constructor")
         ctx.mcall(ab, "add", ctx.call(build, ps, kind, fs[1], _name="constructor"))
         ctx.mcall(ba, "add", ctx.call(build, ps, kind, fs[0], _name="constructor"))
-        self.same(ctx, kind, ab, ba, tag + ":a+b!=b+a")
+        # "up to rounding": rounding of a sum is relative to the magnitudes that were summed (which may have cancelled)
+        opscale = sum(max([0.0] + [abs(float(v)) for key in ("y", "y1", "y2") if key in f for v in f[key]]) for f in fs[:3])
+        self.same(ctx, kind, ab, ba, tag + ":a+b!=b+a", opscale)
         if len(fs) >= 3:
             l = ctx.call(build, ps, kind, fs[0], _name="constructor")
             ctx.mcall(l, "add", ctx.call(build, ps, kind, fs[1], _name="constructor"))
@@ -169,7 +171,7 @@ class Prop(BaseProp):
             r = ctx.call(build, ps, kind, fs[1], _name="constructor")
             ctx.mcall(r, "add", ctx.call(build, ps, kind, fs[2], _name="constructor"))
             ctx.mcall(r, "add", ctx.call(build, ps, kind, fs[0], _name="constructor"))
-            self.same(ctx, kind, l, r, tag + ":(a+b)+c!=(b+c)+a")
+            self.same(ctx, kind, l, r, tag + ":(a+b)+c!=(b+c)+a", opscale)
         # average_profile helper
         from pyspike.DiscreteFunc import average_profile
         ctx.count("average_profile_checked")
@@ -184,13 +186,13 @@ class Prop(BaseProp):
             compare(ctx, kind, o, model_of(kind, f), tag + ":average_profile-modified-input", "input of average_profile afterwards")
 
     @staticmethod
-    def same(ctx, kind, p, q, what):
+    def same(ctx, kind, p, q, what, opscale=0.0):
         if not np.array_equal(np.asarray(p.x), np.asarray(q.x)):
             ctx.violation(what, "breakpoints differ: %s vs %s" % (common.short(np.asarray(p.x).tolist()), common.short(np.asarray(q.x).tolist())))
             return
         for n, a in arrays(kind, p)[1:]:
             b = getattr(q, n)
-            scale = max(1.0, float(np.max(np.abs(np.asarray(a, dtype=float)))) if len(a) else 1.0)
+            scale = max(1.0, opscale, float(np.max(np.abs(np.asarray(a, dtype=float)))) if len(a) else 1.0)
             if not np.allclose(np.asarray(a, dtype=float), np.asarray(b, dtype=float), rtol=0, atol=1e-12 * scale):
                 ctx.violation(what, "%s differs: %s vs %s" % (n, common.short(np.asarray(a).tolist()), common.short(np.asarray(b).tolist())))
                 return
